@@ -1,8 +1,7 @@
 (* C19 — specification S and guard, part 1 (data load forms).
    S: evaluating the load form of v rebuilds v (structural equality on the modelled universe, which is finer than
    slip's Equal: it also looks at the adjustable flag).  The guard `loadable` delimits the values for which the
-   unchanged code meets S; every clause that is not a mere restriction of the modelled universe is a known finding
-   (see known_findings/C19.json and the _refuted theorems). *)
+   code (with repo_fixes/C19-2 .. C19-9) meets S; what is left are restrictions of the modelled universe. *)
 From Coq Require Import List String ZArith Bool Ascii.
 From C19 Require Import Model.
 Import ListNotations.
@@ -59,7 +58,8 @@ Fixpoint quotable (v : obj) : bool :=
   | L xs => negb (match xs with [] => true | _ => false end) && forallb quotable xs
   | Dot xs tl => negb (match xs with [] => true | _ => false end) && forallb quotable xs && quotable tl
                  && match tl with Nil | L _ | Dot _ _ => false | _ => true end
-  | Vec xs et adj => forallb quotable xs && obj_eqb et T && adj   (* #(...) is read as an adjustable vector *)
+  | Vec xs et adj fp => forallb quotable xs && obj_eqb et T && adj   (* #(...) is read as an adjustable vector *)
+                        && match fp with None => true | Some _ => false end   (* ... without a fill pointer *)
   | _ => false
   end.
 
@@ -69,16 +69,18 @@ Definition self_evaluating (v : obj) : bool :=
   | Big z => negb (is_int64 z)
   | Atom k tok => atom_ok k tok
   | Sym s => (is_keyword s && plain_sym s) || existsb (String.eqb s) self_bound
-  | Vec _ _ _ => quotable v
+  | Vec _ _ _ _ => quotable v
   | _ => false
   end.
 
-(* keys HashTable.LoadForm writes AND that Go compares by value (pointer-typed numbers are C16's finding) *)
+(* keys that Go compares by value (pointer-typed numbers -- bignums, ratios, long floats -- as keys are C16's finding; a
+   vector or an instance as a key is compared by identity, which no load form can restore) *)
 Definition hash_key_ok (k : obj) : bool :=
   match k with
+  | Nil | T => true
   | Sym s => plain_sym s
   | Str _ | Fix _ => true
-  | Atom kd tok => ((kd =? "double-float") || (kd =? "single-float")) && no_delim tok
+  | Atom kd tok => (((kd =? "double-float") || (kd =? "single-float")) && no_delim tok) || ((kd =? "character") && atom_ok kd tok)
   | _ => false
   end.
 Fixpoint keys_distinct (ks : list obj) : bool :=
@@ -108,36 +110,73 @@ Definition lam_ok (ll : list obj) (doc : string) (body : list obj) : bool :=
   && (negb (doc =? "") || match body with Str _ :: _ :: _ => false | _ => true end)
   && ((doc =? "") || negb (match body with [] => true | _ => false end)).
 
-(* the guard, for a value nested inside another *)
+Fixpoint strings_eqb (a b : list string) : bool :=
+  match a, b with
+  | [], [] => true
+  | x :: a', y :: b' => (x =? y)%string && strings_eqb a' b'
+  | _, _ => false
+  end.
+Fixpoint keys_nodupb (l : list string) : bool :=
+  match l with [] => true | k :: r => negb (existsb (String.eqb k) r) && keys_nodupb r end.
+
+(* the guard, for a value nested inside another (an element).  What is left are restrictions of the modelled universe
+   (element type t, readable tokens, keys compared by value, the doc/body shape of DefLambda). *)
 Fixpoint loadable_in (v : obj) : bool :=
   match v with
   | Nil | T | Fix _ | Str _ | Big _ => true
   | Atom k tok => atom_ok k tok
-  | Sym s => (is_keyword s && plain_sym s)      (* any other symbol would have to be quoted [C19-symbol-unquoted] *)
-             || existsb (String.eqb s) self_bound   (* ... unless it is a constant bound to itself *)
+  | Sym s => plain_sym s                      (* an element: a keyword stands for itself, any other symbol is quoted *)
   | L xs => negb (match xs with [] => true | _ => false end) && forallb loadable_in xs
   | Dot xs tl => negb (match xs with [] => true | _ => false end) && forallb loadable_in xs && loadable_in tl
                  && match tl with Nil | L _ | Dot _ _ => false | _ => true end
-  | Vec xs et adj =>
-      adj                                          (* [C19-adjustable-lost] *)
-      && negb (match xs with [] => true | _ => false end)   (* [C19-empty-vector] *)
-      && obj_eqb et T && forallb quotable xs
+  | Vec xs et adj fp => obj_eqb et T && forallb quotable xs
   | Arr dims xs et adj =>
-      adj && (2 <=? List.length dims)%nat && forallb (fun d => (0 <? d)%nat) dims   (* [C19-zero-dimension] *)
+      (2 <=? List.length dims)%nat        (* rank 1 is a vector; rank 0 only the Go API can build [C19-rank-zero-array] *)
       && Nat.eqb (List.length xs) (prod_dims dims) && obj_eqb et T && forallb quotable xs
   | Hash kvs =>
-      forallb (fun kv => hash_key_ok (fst kv)            (* [C19-hash-keys-dropped] *)
-                         && self_evaluating (snd kv)) kvs  (* [C19-hash-values-unevaluated] *)
+      forallb (fun kv => hash_key_ok (fst kv) && loadable_in (snd kv)) kvs
       && keys_distinct (map fst kvs)
   | Lam ll doc body => lam_ok ll doc body && (doc =? "")
-  | Inst _ _ | Flv _ _ _ _ _ _ => false     (* instances and flavors: as values of session variables, Session.v *)
+  | Inst f slots =>
+      (fix go (l : list (string * obj)) : bool := match l with [] => true | (_, w) :: r => loadable_in w && go r end) slots
+  | Flv _ _ _ _ _ _ => false     (* a flavor's load form is its defflavor form: Session.v *)
   | Opaque _ => false
+  end.
+
+(* every instance inside v belongs to a flavor the environment knows, with exactly its instance variables; no such
+   flavor is called table or inst: the load forms of hash tables and instances bind these two variables around the
+   forms of the values, a flavor of that name would be hidden from them *)
+Fixpoint insts_in (e : env) (v : obj) : bool :=
+  match v with
+  | Inst f slots =>
+      negb (f =? "inst")%string && negb (f =? "table")%string &&
+      match lookup e f with
+      | Some (Flv _ ivars _ _ _ _) => strings_eqb (map fst ivars) (map fst slots)
+      | _ => false
+      end && keys_nodupb (map fst slots) &&
+      (fix go (l : list (string * obj)) : bool := match l with [] => true | (_, w) :: r => insts_in e w && go r end) slots
+  | L xs => forallb (insts_in e) xs
+  | Dot xs tl => forallb (insts_in e) xs && insts_in e tl
+  | Hash kvs => forallb (fun kv => insts_in e (snd kv)) kvs
+  | _ => true
+  end.
+(* no instance anywhere (where load forms look: vectors and arrays hold quoted data) *)
+Fixpoint no_inst (v : obj) : bool :=
+  match v with
+  | Inst _ _ => false
+  | L xs => forallb no_inst xs
+  | Dot xs tl => forallb no_inst xs && no_inst tl
+  | Hash kvs => forallb (fun kv => no_inst (snd kv)) kvs
+  | _ => true
   end.
 
 (* the guard *)
 Definition loadable (v : obj) : bool :=
   match v with
   | Lam ll doc body => lam_ok ll doc body && doc_ok doc
+  (* a symbol on its own: Symbol.LoadForm is the symbol (make-load-form of a symbol is about what it names); it
+     evaluates to itself only when it is a keyword or a constant bound to itself *)
+  | Sym s => (is_keyword s && plain_sym s) || existsb (String.eqb s) self_bound
   | _ => loadable_in v
   end.
 
@@ -146,7 +185,7 @@ Fixpoint has_lambda (v : obj) : bool :=
   | Lam _ _ _ => true
   | L xs => existsb has_lambda xs
   | Dot xs tl => existsb has_lambda xs || has_lambda tl
-  | Vec xs _ _ | Arr _ xs _ _ => existsb has_lambda xs
+  | Vec xs _ _ _ | Arr _ xs _ _ => existsb has_lambda xs
   | Hash kvs => existsb (fun kv => has_lambda (snd kv)) kvs
   | _ => false
   end.
